@@ -241,16 +241,25 @@ func onlyZeroSigns(a, b *aval.V) bool {
 	return aval.Equal(na, nb)
 }
 
-// aliasPrefix returns a shallow copy of the record behind rv (a pointer to a struct) in which the first non-empty slice
+// aliasPrefix returns a shallow copy of the record rv (a struct or a pointer to one) in which the first non-empty slice
 // found (depth first through record-typed fields) is replaced by a one-shorter prefix over the same backing array; the
 // records on the way are copied, everything else is shared with rv.
 func aliasPrefix(rv reflect.Value, depth int) (reflect.Value, bool) {
-	if depth > 3 || rv.Kind() != reflect.Ptr || rv.IsNil() || rv.Elem().Kind() != reflect.Struct {
+	if rv.Kind() == reflect.Ptr {
+		if rv.IsNil() || rv.Elem().Kind() != reflect.Struct {
+			return rv, false
+		}
+		cp, ok := aliasPrefix(rv.Elem(), depth)
+		if !ok {
+			return rv, false
+		}
+		return cp.Addr(), true
+	}
+	if depth > 3 || rv.Kind() != reflect.Struct {
 		return rv, false
 	}
-	cp := reflect.New(rv.Elem().Type())
-	cp.Elem().Set(rv.Elem())
-	st := cp.Elem()
+	st := reflect.New(rv.Type()).Elem()
+	st.Set(rv)
 	for i := 0; i < st.NumField(); i++ {
 		f := st.Field(i)
 		if !f.CanSet() {
@@ -259,22 +268,22 @@ func aliasPrefix(rv reflect.Value, depth int) (reflect.Value, bool) {
 		switch {
 		case f.Kind() == reflect.Slice && f.Len() >= 1:
 			f.Set(f.Slice(0, f.Len()-1))
-			return cp, true
+			return st, true
 		case f.Kind() == reflect.Ptr && !f.IsNil() && f.Elem().Kind() == reflect.Slice && f.Elem().Len() >= 1:
 			np := reflect.New(f.Elem().Type())
 			np.Elem().Set(f.Elem().Slice(0, f.Elem().Len()-1))
 			f.Set(np)
-			return cp, true
+			return st, true
 		}
 	}
 	for i := 0; i < st.NumField(); i++ {
 		f := st.Field(i)
-		if !f.CanSet() {
+		if !f.CanSet() || (f.Kind() != reflect.Ptr && f.Kind() != reflect.Struct) {
 			continue
 		}
 		if sub, ok := aliasPrefix(f, depth+1); ok {
 			f.Set(sub)
-			return cp, true
+			return st, true
 		}
 	}
 	return rv, false
@@ -311,6 +320,7 @@ func checkEquals(rec *stats.Recorder, c eqCase) (msg string, known string) {
 	// a value that shares memory with the original: the first non-empty array reachable through records is re-sliced
 	// to one element less over the same backing array (what `b.Items = a.Items[:n-1]` gives a caller)
 	if al, ok := aliasPrefix(pool[0].rv, 0); ok {
+		rec.Label("pool_with_aliased_array", 1)
 		pool = append(pool, member{dyn.Extract(S, t, al), al, "original with one array re-sliced to a shorter prefix of the same backing array"})
 	}
 	isComplexKey := t.Ref != nil && S.Lookup(*t.Ref).Kind == "complexkey"
